@@ -197,6 +197,21 @@ func compareParsed(o *Oracle, oc *Outcome, entry string, pb *solver.Problem, n i
 	have := o.Models(n, got)
 	if !equalStrings(want, have) {
 		oc.Fail("spec", "parsed-same-models", entry, "text has %d models over %d variables, parsed problem (units %v + %d constraints) has %d", len(want), n, pb.Units, len(pb.Clauses), len(have))
+		return
+	}
+	// then solve what was parsed: the verdict and the model must be the text's
+	s := solver.New(pb)
+	st := s.Solve()
+	if (st == solver.Sat) != (len(want) > 0) || (st != solver.Sat && st != solver.Unsat) {
+		oc.Fail("spec", "parsed-then-solved", entry+"+Solve", "status %v, the text has %d models", st, len(want))
+	} else if st == solver.Sat {
+		m := s.Model()
+		if len(m) < n {
+			m = append(m, make([]bool, n-len(m))...)
+		}
+		if a := o.Eval(len(m), sem, m); a != "ok" {
+			oc.Fail("spec", "parsed-then-solved", entry+"+Solve", "model %v is not a model of the text: %s", m, a)
+		}
 	}
 }
 
